@@ -7,7 +7,7 @@ S_RULES = ['S-matmul', 'S-einsum', 'S-einsum-out', 'S-tensordot', 'S-concat',
            'S-reshape', 'S-bcast', 'S-store', 'S-slot', 'S-ndim', 'S-solve',
            'S-square', 'S-index', 'S-unpack', 'S-axis', 'S-transpose',
            'S-item', 'S-choice', 'S-ravel', 'S-kind', 'S-bigprod', 'S-bitwidth',
-           'S-squeeze',
+           'S-squeeze', 'K-truth', 'K-inarr', 'S-order',
            'X-arity',
            'X-name']
 
@@ -102,6 +102,23 @@ def cmp3(got, want):
     if w_.all_free() and data_dependent(g_):
         return 'violation'
     return 'unknown'
+
+
+def cmp3_free(got, want):
+    """cmp3 for sizes whose symbols are FREE inputs without an ordering
+    precondition (requested ranks / mode sizes of a constructor): min / max
+    atoms are expanded, each argument being the value for some ordering of
+    the inputs, so ``min(n0, r)`` against ``r`` differs (for n0 < r)."""
+    c3 = cmp3(got, want)
+    if c3 != 'unknown':
+        return c3
+    from .. import poly as _p
+    saved = _p.EXPAND[0]
+    _p.EXPAND[0] = True
+    try:
+        return 'violation' if _p.definitely_differ(got, want) else 'unknown'
+    finally:
+        _p.EXPAND[0] = saved
 
 
 def dom3(raises, returns, bad, qual=None, exc='ValueError'):
